@@ -3,6 +3,8 @@
 from __future__ import annotations
 
 import numpy as np
+from contextlib import contextmanager
+
 from hypothesis import strategies as st
 
 from vf.core import Discard, Violation, require
@@ -13,13 +15,108 @@ ID = "C16"
 LEVEL = "exploration"
 RULE = (
     "Hypothesis draws convex problems (kappa<=100) and the package's benchmark functions with narrow boxes of every kind (incl. lb==ub), starts on faces/vertices, and runs them with "
-    "jac in {None, '2-point', '3-point', 'cs' (analytic families)}, eps in {1e-8,1e-6}, finite_diff_rel_step in {None,1e-7}. Oracle: no exception escapes; every stencil point inside the box; "
+    "jac in {None, '2-point', '3-point', 'cs' (analytic families)}, eps in {1e-8,1e-6} or a per-variable array, finite_diff_rel_step in {None,1e-7} or a per-variable array; half of the cases are preceded by another "
+    "run of another size with another scheme and coarse or per-variable steps. Oracle: no exception escapes; every stencil point inside the box; every differencing request of the run evaluates exactly the stencil points (projected onto the box) "
+    "and serves exactly the gradient that scipy.optimize's approx_derivative gives for the *requested* options with f0 = f(x) (differential); "
     "nfev equals the number of objective calls logged (stencil points included); on the convex families the final value matches the exact-gradient run to 1e-6*(1+|f|). "
     "non-trivial = some iterate of the run has a component on a bound and >=1 bound is active at the result; distinct = distinct (problem, mode, options)"
 )
 ASSUMPTIONS = [
     "differencing error of the gradient is <= 1e-8*L*|x| (2-point) and enters the optimal value quadratically, so 1e-6 relative is loose by orders of magnitude yet far below a stalled run",
 ]
+
+
+@contextmanager
+def fd_watch():
+    """Records every differencing request the package makes (x0, f0 and the points it evaluates) by wrapping the name
+    `approx_derivative` in lbfgsb.scalar_function from outside.  If a refactoring removes that name, nothing is recorded
+    and the clause built on it is counted as not judged."""
+    import lbfgsb.scalar_function as SF
+
+    orig = getattr(SF, "approx_derivative", None)
+    log = []
+    if orig is not None:
+        def wrapper(fun, x0, *a, **k):
+            pts = []
+
+            def rec(x):
+                v = fun(x)
+                pts.append(np.array(x, copy=True))
+                return v
+
+            e = {"x0": np.array(x0, copy=True), "f0": k.get("f0"), "pts": pts, "out": None}
+            log.append(e)
+            out = orig(rec, x0, *a, **k)
+            e["out"] = np.array(out, copy=True)
+            return out
+
+        SF.approx_derivative = wrapper
+    try:
+        yield log if orig is not None else None
+    finally:
+        if orig is not None:
+            SF.approx_derivative = orig
+
+
+def requested_scheme(mode, spec):
+    """The differencing scheme the *caller* asked for, as arguments of scipy's approx_derivative."""
+    if mode is None:
+        return {"method": "2-point", "abs_step": np.asarray(spec["eps"], dtype=float) if isinstance(spec["eps"], list) else spec["eps"], "rel_step": None}
+    rel = spec["rel"]
+    return {"method": mode, "rel_step": np.asarray(rel, dtype=float) if isinstance(rel, list) else rel, "abs_step": None}
+
+
+def check_stencils(prob, mode, spec, fdlog, stats):
+    """Differential oracle against SciPy's own approx_derivative called with the options of the run's specification: the
+    package must evaluate exactly those stencil points (projected onto the box) and serve exactly that gradient."""
+    from scipy.optimize._numdiff import approx_derivative
+
+    lb, ub = prob.lb, prob.ub
+    opts = requested_scheme(mode, spec)
+    judged = 0
+    for e in fdlog[:40]:
+        x0 = e["x0"]
+        if e["out"] is None:
+            continue
+        f0 = prob.obj.f(x0)
+        require(e["f0"] is not None and float(e["f0"]) == float(f0), "base-value-is-f(x)", f"jac={mode!r}: differencing at x uses f0={e['f0']!r} but f(x)={f0!r}")
+        ref_pts = []
+
+        def rec(x):
+            xr = np.clip(x, lb, ub) if not np.iscomplexobj(x) else x
+            ref_pts.append(np.array(xr, copy=True))
+            return prob.obj.f(xr)
+
+        ref = approx_derivative(rec, x0, f0=f0, bounds=(lb, ub), **opts)
+        got = [np.clip(p, lb, ub) if not np.iscomplexobj(p) else p for p in e["pts"]]
+        same = len(got) == len(ref_pts) and all(np.array_equal(a, b) for a, b in zip(got, ref_pts))
+        if not same:
+            k = next((i for i, (a, b) in enumerate(zip(got, ref_pts)) if not np.array_equal(a, b)), min(len(got), len(ref_pts)))
+            raise Violation("stencil-is-the-requested-scheme",
+                            f"jac={mode!r} eps={spec.get('eps')!r} rel={spec.get('rel')!r}: at x={x0.tolist()} the package evaluates {len(got)} stencil points, the requested scheme {len(ref_pts)}; "
+                            f"first difference at #{k}: {got[k].tolist() if k < len(got) else None} vs {ref_pts[k].tolist() if k < len(ref_pts) else None}")
+        fixed = lb == ub
+        gref = np.where(fixed, 0.0, ref)
+        gout = np.where(fixed, 0.0, e["out"])
+        ok = np.array_equal(np.isnan(gref), np.isnan(gout)) and float(np.nanmax(np.abs(gref - gout), initial=0.0)) <= 1e-12 * (1.0 + float(np.nanmax(np.abs(gref), initial=0.0)))
+        require(ok, "gradient-is-the-requested-scheme", f"jac={mode!r}: differenced gradient at x={x0.tolist()} is {gout.tolist()} but the requested scheme gives {gref.tolist()}")
+        judged += 1
+    if stats is not None:
+        stats.bump("differencing-requests-compared-with-scipy", judged)
+
+
+def polluter(spec):
+    """A run made just before the judged one, with other differencing options and another size: it must leave nothing behind."""
+    b = spec.get("before")
+    if not b:
+        return
+    pb = build(b["problem"])
+    cfg = {"maxcor": 3, "maxiter": 2, "maxfun": 200, "maxls": 5, "ftol": 1e-14, "gtol": 1e-7}
+    if b["jac"] is None:
+        cfg["eps"] = b["eps"]
+    elif b["jac"] != "callable":
+        cfg["finite_diff_rel_step"] = b["rel"]
+    run_min(pb, cfg, jac_mode=b["jac"])
 
 
 def check(spec, stats=None):
@@ -30,7 +127,9 @@ def check(spec, stats=None):
         cfg["eps"] = spec["eps"]
     else:
         cfg["finite_diff_rel_step"] = spec["rel"]
-    tr = run_min(prob, cfg, jac_mode=mode, callback="passive")
+    polluter(spec)
+    with fd_watch() as fdlog:
+        tr = run_min(prob, cfg, jac_mode=mode, callback="passive")
     lb, ub = prob.lb, prob.ub
     if tr.exc is not None:
         import traceback
@@ -51,6 +150,11 @@ def check(spec, stats=None):
             raise Violation("stencil-inside-box", f"jac={mode!r}: objective evaluated at component {i} = {xr[i]!r} outside [{lb[i]!r}, {ub[i]!r}]")
     require(tr.res["nfev"] == tr.nf, "nfev-counts-stencil-evaluations", f"jac={mode!r}: nfev={tr.res['nfev']} but the objective was called {tr.nf} times")
     require(tr.res["message"] not in ("START", "RESTART_FROM_LNSRCH"), "documented-message", f"jac={mode!r}: message {tr.res['message']!r}")
+    if fdlog is None:
+        if stats is not None:
+            stats.bump("differencing-requests-not-observable(clause not judged)")
+    else:
+        check_stencils(prob, mode, spec, fdlog, stats)
     compared = False
     if prob.obj.convex:
         ex = run_min(prob, cfg, jac_mode="callable")
@@ -78,7 +182,22 @@ def strategy(draw):
     mode = draw(st.sampled_from([None, "2-point", "3-point", "cs"]))
     fams = list(CONVEX_FAMILIES) if mode == "cs" else list(CONVEX_FAMILIES) * 2 + ["bench"]
     p = draw(problem_spec(families=fams, n_max=8, narrow=True, kappa_max_exp=2.0, box_mode=draw(st.sampled_from(["mixed", "boxed", "boxed"]))))
-    return {"problem": p, "jac": mode, "maxcor": draw(st.integers(1, 10)), "eps": draw(st.sampled_from([1e-8, 1e-6])), "rel": draw(st.sampled_from([None, 1e-7]))}
+    n = p["obj"]["n"]
+    out = {"problem": p, "jac": mode, "maxcor": draw(st.integers(1, 10)), "eps": draw(st.sampled_from([1e-8, 1e-6])), "rel": draw(st.sampled_from([None, 1e-7]))}
+    k = draw(st.integers(0, 3))
+    if k == 0:  # per-variable steps
+        out["eps"] = [draw(st.sampled_from([1e-8, 1e-7, 1e-6])) for _ in range(n)]
+        out["rel"] = [draw(st.sampled_from([1e-8, 1e-7])) for _ in range(n)]
+    if draw(st.booleans()):
+        # the run before this one: another size, another scheme, coarse or per-variable steps
+        nb = draw(st.integers(1, 8).filter(lambda v: v != n))
+        pb = draw(problem_spec(families=("boxqp",), n_min=nb, n_max=nb, narrow=True, kappa_max_exp=1.0, box_mode="boxed"))
+        jb = draw(st.sampled_from([None, "2-point", "3-point", "cs", "callable"]))
+        vec_steps = draw(st.booleans())
+        out["before"] = {"problem": pb, "jac": jb,
+                         "eps": [draw(st.sampled_from([1e-3, 1e-2])) for _ in range(nb)] if vec_steps else draw(st.sampled_from([1e-3, 1e-2])),
+                         "rel": [draw(st.sampled_from([1e-3, 1e-2])) for _ in range(nb)] if vec_steps else draw(st.sampled_from([1e-2, 1e-3, None]))}
+    return out
 
 
 def shard(ctx):
